@@ -62,6 +62,35 @@ fn main() {
         }
         return;
     }
+    if args[1] == "--gen" && args.len() > 3 {
+        // --gen core|calls|control|arrays <count> [substring]: generated programs (+ reference outcome) containing the substring
+        use genr::build::{Gen, GenCfg};
+        let n: u64 = args[3].parse().unwrap_or(100);
+        let needle = args.get(4).cloned().unwrap_or_default();
+        let mut shown = 0;
+        for i in 0..n {
+            let tape: Vec<u32> = (0..300).map(|k| (engine::hash64(&(i, k as u64)) >> 16) as u32).collect();
+            let prog = match args[2].as_str() {
+                "calls" => Gen::new(&tape, &GenCfg::core(8, 2)).calls_program(),
+                "control" => Gen::new(&tape, &GenCfg::core(20, 3)).control_program(),
+                "arrays" => Gen::new(&tape, &GenCfg::core(20, 2)).array_program(),
+                _ => Gen::new(&tape, &GenCfg::core(14, 3)).core_program(),
+            };
+            let r = genr::print::render(&prog, &genr::print::Layout::plain());
+            if r.text.contains(&needle) {
+                shown += 1;
+                let out = match refsem::run(&prog, 200_000) {
+                    refsem::Outcome::Determined(res) => format!("determined stdout={:?} end={:?}", res.stdout, res.end),
+                    refsem::Outcome::Undetermined(why, _) => format!("undetermined: {}", why),
+                };
+                println!("--- {}\n{}\n=> {}", i, r.text, out);
+                if shown >= 5 {
+                    break;
+                }
+            }
+        }
+        return;
+    }
     if args[1] == "--corpus" {
         let all = corpus::candidates();
         let acc = corpus::accepted();
